@@ -72,9 +72,12 @@ def run(tier):
             q["ops"] += [{"op": "copy", "src": "a", "dst": "b"}, {"op": "liftfile", "file": "b"}]
         q["model"] = {"sigs": {}}
         P.append(q)
-    # histories from the shape graph (spec/JlsShapes.tla): every (shape, call) pair in thorough, a sample in quick
+    # histories from the shape graph (spec/JlsShapes.tla): a sample of the (shape, call) pairs (thorough: 40000 of them)
     import shapes
-    for k, (q, model) in enumerate(shapes.programs(ck, rng, "c05-shape", thorough, None if thorough else 1200, x0=len(P))):
+    for k, (q, model) in enumerate(shapes.programs(ck, rng, "c05-shape", thorough, 40000 if thorough else 1200, x0=len(P))):
+        if k % 5 == 2:
+            q["ops"][0]["twr"] = True          # the same history through the threaded writer (real threads)
+            q["kind"] = "c05-shape-twr"
         q["ops"].append({"op": "liftfile", "file": "a"})
         if k % 3 == 1:
             q["ops"] += [{"op": "copy", "src": "a", "dst": "b"}, {"op": "liftfile", "file": "b"}]
